@@ -472,6 +472,39 @@ impl SubCheck for Filter {
 		let uri_str = uri.as_ref().map(|u| String::from_utf8_lossy(u).to_string());
 		let desc = || format!("allow-list {texts:?}; Host {host_strs:?}; URI authority {uri_str:?} => status {status}, inner called={was_called}");
 		obs.sample(json!({"allow": texts, "host": host_strs, "uri": uri_str, "status": status}));
+		// ---- the same Host header on a `GET /health` that a `ProxyGetRequestLayer` in front of the filter turns into a call
+		// (the stacking of examples/jsonrpsee_as_service.rs): the verdict of the filter is the same and reaches the peer
+		if uri.is_none() {
+			use jsonrpsee_server::middleware::http::ProxyGetRequestLayer;
+			let called2 = Arc::new(AtomicUsize::new(0));
+			let c3 = called2.clone();
+			let inner2 = tower::service_fn(move |_req: jsonrpsee_server::HttpRequest| {
+				let c = c3.clone();
+				async move {
+					c.fetch_add(1, Ordering::SeqCst);
+					let mut r = ::http::Response::new(jsonrpsee_server::HttpBody::from(r#"{"jsonrpc":"2.0","id":0,"result":true}"#));
+					r.headers_mut().insert("content-type", ::http::HeaderValue::from_static("application/json"));
+					Ok::<_, std::convert::Infallible>(r)
+				}
+			});
+			let mut get = ::http::Request::builder().method("GET").uri("/health");
+			for h in &hosts {
+				get = get.header("host", h.as_slice());
+			}
+			if let (Ok(proxy), Ok(get)) = (ProxyGetRequestLayer::new([("/health", "system_health")]), get.body(Body::new())) {
+				let mut stacked = proxy.layer(layer.layer(inner2));
+				match futures_util::FutureExt::now_or_never(stacked.call(get)) {
+					Some(Ok(r)) => {
+						let st2 = r.status().as_u16();
+						let called_2 = called2.load(Ordering::SeqCst) > 0;
+						obs.class("get-through-proxy-layer-in-front-of-the-filter");
+						obs.check(st2 == status && called_2 == was_called, "c14/verdict-differs-behind-proxy-get-layer", || format!("{}; the same Host on GET /health through ProxyGetRequestLayer + filter => status {st2}, inner called={called_2}", desc()));
+					}
+					Some(Err(e)) => obs.fail("c14/service-error", format!("stacked service: {e}")),
+					None => obs.class("stacked-service-pending"),
+				}
+			}
+		}
 		// reference reading
 		let host_auth: Option<Option<RAuth>> = match hosts.len() {
 			0 => None,
